@@ -73,7 +73,6 @@ impl Decode for StateVector {
             lemma_suffix_skip(s0, dec_u32(s0)->Some_0.1);
             lemma_suffix_refl(s1);
             lemma_dec_list_start(sv_item(), s1, len as nat);
-            assert(s1.skip(0) =~= s1);
         }
     @loop 1
         invariant
@@ -127,9 +126,7 @@ impl Decode for StateVector {
         proof {
             lemma_suffix_step(s0, s1, decoder.rest());
             lemma_map_of_len(items);
-            let k = dec_u32(s0)->Some_0.1;
-            assert(s0.skip(k as int).skip(kk as int) =~= s0.skip((k + kk) as int));
-            lemma_dec_list_done(sv_item(), decoder.rest(), items, kk);
+            lemma_counted_finish(sv_item(), s0, dec_u32(s0)->Some_0.1, len as nat, s1, items, kk);
         }
     @*/
 }
